@@ -113,8 +113,15 @@ def ex_cartesian(ctx, lat_case, mag, n, hostile, seed):
     lon, lat, ij = place_events(rng, model.ex, model.ey, active, n, float(lat_case["dh"]))
     mags, mk = place_mags(rng, bins, n)
     cell = model.ci[ij[:, 0], ij[:, 1]] if n else numpy.zeros(0, dtype=int)
-    out = run_case(ctx, rc, tags, reg, bins, explicit, lon, lat, mags, cell, mk, hostile, rng,
-                   outside_pt=(float(model.ex[-1] + 3.3 * float(lat_case["dh"])), float(model.ey[0] - 2.2 * float(lat_case["dh"]))))
+    outside_pt = (float(model.ex[-1] + 3.3 * float(lat_case["dh"])), float(model.ey[0] - 2.2 * float(lat_case["dh"])))
+    inactive = numpy.argwhere(model.ci < 0)
+    if hostile == "space" and len(inactive) and seed % 2:
+        # an event inside the bounding box but in a hole or in a cell the region's mask flags switch off
+        i_, j_ = inactive[int(rng.integers(0, len(inactive)))]
+        dh_ = float(lat_case["dh"])
+        outside_pt = (float(model.ex[i_] + 0.5 * dh_), float(model.ey[j_] + 0.5 * dh_))
+        tags = dict(tags, outside_kind="hole-or-flagged-cell")
+    out = run_case(ctx, rc, tags, reg, bins, explicit, lon, lat, mags, cell, mk, hostile, rng, outside_pt=outside_pt)
     if out is not None and n:
         rebind_history(ctx, rc, tags, out, lat_case, bins, explicit, rng)
     if n >= 2:
@@ -186,6 +193,11 @@ def ex_quadtree(ctx, qmode, zoom, mag, n, hostile, seed):
         reg = QuadtreeGrid2D.from_single_resolution(zoom, magnitudes=None if explicit else bins)
     elif qmode == "cut":
         qk = c17.random_cut(rng, zoom + 1, keep=1.0)
+        order = int(rng.integers(0, 3))
+        if order == 1:
+            qk = [qk[i] for i in rng.permutation(len(qk))]               # arbitrary listing order
+        elif order == 2:
+            qk = sorted(qk, key=lambda q: (len(q), c17.tile_bounds(q)[1]))  # coarse cells first, south to north
         reg = QuadtreeGrid2D.from_quadkeys(qk, magnitudes=None if explicit else bins)
     else:
         lo, la = c17._catalog(rng, "cluster", zoom + 2)
@@ -201,7 +213,9 @@ def ex_quadtree(ctx, qmode, zoom, mag, n, hostile, seed):
     mags, mk = place_mags(rng, bins, n)
     rc = {"exec": "quadtree", "args": {"qmode": qmode, "zoom": zoom, "mag": mag, "n": n, "hostile": hostile, "seed": seed}}
     tags = {"region": "quadtree", "explicit_bins": explicit, "hostile": hostile, "n0": n == 0}
-    run_case(ctx, rc, tags, reg, bins, explicit, lon, lat, mags, k, mk, hostile, rng, outside_pt=(10.0, 86.5))
+    # outside points: beyond the Mercator limit, or exactly ON the grid's north edge (north is exclusive)
+    run_case(ctx, rc, tags, reg, bins, explicit, lon, lat, mags, k, mk, hostile, rng,
+             outside_pt=(10.0, 86.5) if seed % 3 else (float(b[int(rng.integers(0, len(b))), 0]), float(b[:, 3].max())))
     if n >= 2:
         ctx.nt(digest(("quad", qmode, zoom, mag, n, hostile, seed)))
 
